@@ -1142,7 +1142,8 @@ static inline uint8_t VFSHL8(uint8_t a, uint8_t b, uint8_t c) { c &= 7; return (
 extern int vh_failed;
 #define VUNREACHABLE() abort()
 #define VUNTRANSLATED() abort()
-#define LEAK(c, what) do { if (!(c)) { printf("CHECK-FAILED leak: %s\n", what); vh_failed = 1; } } while (0)
+void vh_report(const char *kind, const char *msg, const char *file, int line);
+#define LEAK(c, what) do { if (!(c)) { vh_report("CHECK-FAILED", "leak: " what, __FILE__, __LINE__); vh_failed = 1; } } while (0)
 #define POFF(p) ((uint64_t)0)
 #else
 #define VUNREACHABLE() __CPROVER_assert(0, "unreachable reached")
